@@ -1,0 +1,22 @@
+//go:build verif
+
+package combinator
+
+import (
+	"github.com/scionproto/scion/pkg/private/ctrl/path_mgmt/proto"
+	seg "github.com/scionproto/scion/pkg/segment"
+)
+
+// VerifCalculateBeta exposes calculateBeta (the initial SegID written into the
+// info field of a combined path) for the correspondence harness under /verif.
+func VerifCalculateBeta(ps *seg.PathSegment, isDown bool, shortcut, peer int) uint16 {
+	t := proto.PathSegType_up
+	if isDown {
+		t = proto.PathSegType_down
+	}
+	se := &solutionEdge{
+		edge:    &edge{Shortcut: shortcut, Peer: peer},
+		segment: &inputSegment{PathSegment: ps, Type: t},
+	}
+	return calculateBeta(se)
+}
